@@ -53,7 +53,7 @@ SAFE_BUILTINS = {
 }
 SAFE_ATTR_CALLS = {
     're.escape': re.escape, 're.compile': re.compile, 're.match': re.match, 're.fullmatch': re.fullmatch, 're.search': re.search,
-    're.sub': re.sub, 'json.dumps': json.dumps, 'json.loads': json.loads, 'shlex.quote': shlex.quote, 'shlex.split': shlex.split, 'shlex.join': shlex.join,
+    're.sub': re.sub, 'json.dumps': json.dumps, 'json.loads': json.loads, 'json.load': (lambda f, **k: json.loads(f.read(), **k)), 'shlex.quote': shlex.quote, 'shlex.split': shlex.split, 'shlex.join': shlex.join,
     'os.path.splitext': os.path.splitext, 'os.path.basename': os.path.basename, 'os.path.dirname': os.path.dirname,
     'os.path.join': os.path.join, 'os.path.isabs': os.path.isabs, 'os.path.normpath': os.path.normpath,
 }
@@ -102,10 +102,19 @@ def pure_os(**extra):
     o.path = _NS()
     for nm in ('join', 'basename', 'dirname', 'split', 'splitext', 'isabs', 'normpath', 'relpath', 'commonprefix', 'sep'):
         setattr(o.path, nm, getattr(posixpath, nm))
-    o.path.abspath = posixpath.normpath          # evaluations hand in absolute paths
+    cwd = extra.pop('cwd', None)
+    if cwd:
+        o.path.abspath = lambda q: posixpath.normpath(posixpath.join(cwd, q))      # relative names resolve against the stated directory
+        o.getcwd = lambda: cwd
+    else:
+        o.path.abspath = posixpath.normpath          # evaluations hand in absolute paths
     o.sep = '/'
     o.linesep = '\n'
     o.SEEK_SET, o.SEEK_CUR, o.SEEK_END = 0, 1, 2
+    import os as _os
+    o.PathLike = _os.PathLike
+    o.fspath = _os.fspath
+    o.fsdecode = _os.fsdecode
     for k, v in extra.items():
         tgt = o.path if k.startswith('path_') else o
         setattr(tgt, k[5:] if k.startswith('path_') else k, v)
@@ -197,7 +206,7 @@ class FakeFS(Model):
         open_._pyeval_model = True
         self.open = open_
 
-    def os(self, **extra):
+    def os(self, cwd=None, **extra):
         """the os stand-in whose file tests and removals act on this file system"""
         fs = self
 
@@ -208,6 +217,8 @@ class FakeFS(Model):
             fs.removed.append(path)
         fs.removed = getattr(fs, 'removed', [])
         dirs = lambda: {p_.rsplit('/', 1)[0] for p_ in fs.files}
+        if cwd:
+            extra['cwd'] = cwd
         return pure_os(name='posix', remove=remove, unlink=remove,
                        path_exists=lambda q: q in fs.files or q.rstrip('/') in dirs(), path_isfile=lambda q: q in fs.files,
                        path_isdir=lambda q: q.rstrip('/') in dirs() and q not in fs.files, **extra)
